@@ -7,6 +7,8 @@ import (
 	"encoding/json"
 	"os"
 	"sync"
+
+	"github.com/ChainSafe/sygma-relayer/util"
 )
 
 type TopologyStore struct {
@@ -20,25 +22,17 @@ func NewTopologyStore(filePath string) *TopologyStore {
 	}
 }
 
-// StoreTopology stores topology into a file
+// StoreTopology stores topology into a file, atomically replacing the old one
 func (ts *TopologyStore) StoreTopology(topology *NetworkTopology) error {
 	ts.mu.Lock()
 	defer ts.mu.Unlock()
-
-	f, err := os.OpenFile(ts.path, os.O_RDWR|os.O_CREATE|os.O_TRUNC, 0755)
-	if err != nil {
-
-		return err
-	}
-	defer f.Close()
 
 	kb, err := json.Marshal(&topology)
 	if err != nil {
 		return err
 	}
 
-	_, err = f.Write(kb)
-	return err
+	return util.WriteFileAtomic(ts.path, kb, 0755)
 }
 
 // Topology fetches current topology from file
